@@ -91,9 +91,18 @@ def task_lines(t, ind="  "):
             s += " { alternative " + ", ".join(t["alt"]) + " }"
         out.append(s)
     if t.get("deps"):
-        out.append(f"{ind}depends " + ", ".join(dep_str(d) for d in t["deps"]))
+        if t.get("split_deps") and len(t["deps"]) > 1:
+            # one statement per edge: several `depends` statements on a task add up
+            for d in t["deps"]:
+                out.append(f"{ind}depends " + dep_str(d))
+        else:
+            out.append(f"{ind}depends " + ", ".join(dep_str(d) for d in t["deps"]))
     if t.get("prec"):
-        out.append(f"{ind}precedes " + ", ".join(dep_str(d) for d in t["prec"]))
+        if t.get("split_deps") and len(t["prec"]) > 1:
+            for d in t["prec"]:
+                out.append(f"{ind}precedes " + dep_str(d))
+        else:
+            out.append(f"{ind}precedes " + ", ".join(dep_str(d) for d in t["prec"]))
     if t.get("prio") is not None:
         out.append(f"{ind}priority {t['prio']}")
     if t.get("start") is not None:
